@@ -3752,9 +3752,14 @@ class State:
         self.manager.errors.set_file(self.xpath, self.id, self.options)
         if self.manager.errors.is_error_code_enabled(codes.IGNORE_WITHOUT_CODE):
             is_typeshed = self.tree is not None and self.tree.is_typeshed_file(self.options)
+            # Same condition as in generate_unused_ignore_notes() above.
+            warn_unused_ignores = (
+                self.options.warn_unused_ignores
+                or codes.UNUSED_IGNORE in self.options.enabled_error_codes
+            ) and codes.UNUSED_IGNORE not in self.options.disabled_error_codes
             with self.wrap_context():
                 self.manager.errors.generate_ignore_without_code_errors(
-                    self.xpath, self.options.warn_unused_ignores, is_typeshed
+                    self.xpath, warn_unused_ignores, is_typeshed
                 )
 
 
